@@ -24,9 +24,19 @@ func execLoop(magic string, seedA, seedB []byte, gA, gB int, dA, dB, pktsA, pkts
 		return ps
 	}
 	pa, pb := toPkts(pktsA), toPkts(pktsB)
+	// packets above the content limit are refused by the sender: nothing to receive for them
+	sent := func(ps []pkt) []pkt {
+		var out []pkt
+		for _, p := range ps {
+			if p.ln <= 1<<24-1 {
+				out = append(out, p)
+			}
+		}
+		return out
+	}
 	wa, wb := loopback(a, b, pa, pb)
-	ra, _ := runEp(a.roleTok(), a.magic, a.pre, a.seed, a.gLen, a.decoys, wb, append(sendActs(pa), recvActs(pb, 0)...))
-	rb, _ := runEp(b.roleTok(), b.magic, b.pre, b.seed, b.gLen, b.decoys, wa, append(sendActs(pb), recvActs(pa, 0)...))
+	ra, _ := runEp(a.roleTok(), a.magic, a.pre, a.seed, a.gLen, a.decoys, wb, append(sendActs(pa), recvActs(sent(pb), 0)...))
+	rb, _ := runEp(b.roleTok(), b.magic, b.pre, b.seed, b.gLen, b.decoys, wa, append(sendActs(pb), recvActs(sent(pa), 0)...))
 	pick := func(res, key string) []string {
 		var out []string
 		for _, t := range strings.Fields(res) {
